@@ -27,6 +27,7 @@ type Loaded struct {
 	HarnessPkgs []string
 	LoadTime time.Duration
 	HarnessDir string
+	Extra map[string][]byte // additional overlay (mutation self-test): repo path -> content
 }
 
 // harnessOverlay maps /verif/harness/<rel>/file.go to /repo/<rel>/file.go.
@@ -120,7 +121,7 @@ func Load(harnessDir string, extraOverlay map[string][]byte) (*Loaded, error) {
 	}
 	prog, _ := ssautil.AllPackages(pkgs, ssa.InstantiateGenerics)
 	prog.Build()
-	l := &Loaded{Prog: prog, Pkgs: map[string]*ssa.Package{}, Overlay: ov, HarnessPkgs: hpkgs, HarnessDir: harnessDir}
+	l := &Loaded{Prog: prog, Pkgs: map[string]*ssa.Package{}, Overlay: ov, HarnessPkgs: hpkgs, HarnessDir: harnessDir, Extra: extraOverlay}
 	for _, p := range prog.AllPackages() {
 		l.Pkgs[p.Pkg.Path()] = p
 	}
